@@ -100,7 +100,7 @@ func (sc *Scenario) DefinitionCalls() []string {
 }
 
 // Words share prefixes on purpose (abbreviation ambiguity, completion lists with several entries).
-var words = []string{"v", "ver", "verbose", "version", "val", "value", "values", "f", "fo", "foo", "force", "file", "files", "b", "bar", "baz", "build", "x", "xy", "q", "quiet", "quick", "d", "debug", "dry", "t", "tag", "tags", "n", "name", "V", "Ver", "File", "Q", "B", "Tag", "N", "Name"}
+var words = []string{"v", "ver", "verbose", "version", "val", "value", "values", "f", "fo", "foo", "force", "file", "files", "b", "bar", "baz", "build", "x", "xy", "q", "quiet", "quick", "d", "debug", "dry", "t", "tag", "tags", "n", "name", "V", "Ver", "File", "Q", "B", "Tag", "N", "Name", "include", "exclude", "valued"}
 var cmdWords = []string{"build", "bench", "bump", "clean", "check", "clone", "test", "tidy", "run", "log", "logs", "login", "show", "slow", "status"}
 
 func genOpts(r *simrt.RNG, taken map[string]bool, n int, reqBias int) []OptDef {
@@ -307,6 +307,18 @@ func Generate(seed uint64) *Scenario {
 		case 3: // a prefix shared by several words
 			sc.Argv = append(sc.Argv, "--"+[]string{"v", "ve", "ver", "va", "val", "f", "fo", "fi", "b", "ba", "q", "qui", "t", "ta", "d"}[r.Intn(15)])
 		case 4, 5: // unknown options, often several
+			if len(names) > 0 && r.Intn(3) == 0 { // a near miss of known names (a typo)
+				if t := typoBetween(r, names); t != "" {
+					sc.Argv = append(sc.Argv, "--"+t)
+					break
+				}
+				w := names[r.Intn(len(names))]
+				if len(w) >= 4 {
+					p := r.Intn(len(w))
+					sc.Argv = append(sc.Argv, "--"+w[:p]+string(rune('a'+r.Intn(26)))+w[p+r.Intn(2):])
+					break
+				}
+			}
 			sc.Argv = append(sc.Argv, unknowns[r.Intn(len(unknowns))])
 			if r.Intn(2) == 0 {
 				sc.Argv = append(sc.Argv, unknowns[r.Intn(len(unknowns))])
@@ -390,4 +402,83 @@ func Generate(seed uint64) *Scenario {
 		sc.CompLine += " "
 	}
 	return sc
+}
+
+func editDistance(a, b string) int {
+	prev := make([]int, len(b)+1)
+	cur := make([]int, len(b)+1)
+	for j := range prev {
+		prev[j] = j
+	}
+	for i := 1; i <= len(a); i++ {
+		cur[0] = i
+		for j := 1; j <= len(b); j++ {
+			c := 1
+			if a[i-1] == b[j-1] {
+				c = 0
+			}
+			cur[j] = prev[j-1] + c
+			if prev[j]+1 < cur[j] {
+				cur[j] = prev[j] + 1
+			}
+			if cur[j-1]+1 < cur[j] {
+				cur[j] = cur[j-1] + 1
+			}
+		}
+		prev, cur = cur, prev
+	}
+	return prev[len(b)]
+}
+
+// typoBetween returns a word that is not a known name but is exactly one edit away from at least
+// two known names (a typo with several equally good corrections), or "".
+func typoBetween(r *simrt.RNG, names []string) string {
+	known := map[string]bool{}
+	for _, n := range names {
+		known[n] = true
+	}
+	var cands []string
+	for _, w := range names {
+		if len(w) < 4 {
+			continue
+		}
+		letters := "x"
+		for _, o := range names {
+			if o != w && len(o) >= 3 && editDistance(w, o) <= 2 {
+				letters += o
+			}
+		}
+		if letters == "x" {
+			continue
+		}
+		try := func(c string) {
+			if known[c] || len(c) < 4 {
+				return
+			}
+			n := 0
+			for _, o := range names {
+				if editDistance(c, o) == 1 {
+					n++
+				}
+			}
+			if n >= 2 {
+				cands = append(cands, c)
+			}
+		}
+		for p := 0; p <= len(w); p++ {
+			for i := 0; i < len(letters); i++ {
+				try(w[:p] + letters[i:i+1] + w[p:]) // insertion
+				if p < len(w) {
+					try(w[:p] + letters[i:i+1] + w[p+1:]) // substitution
+				}
+			}
+			if p < len(w) {
+				try(w[:p] + w[p+1:]) // deletion
+			}
+		}
+	}
+	if len(cands) == 0 {
+		return ""
+	}
+	return cands[r.Intn(len(cands))]
 }
